@@ -36,7 +36,13 @@ def gen_case(rng):
     step = rng.choice(STEPS)
     n = rng.randrange(3, 8)
     start = datetime(rng.choice([2018, 2019, 2020, 2021]), rng.randrange(1, 13), rng.randrange(1, 28), rng.randrange(24), rng.randrange(60), rng.choice([0, 0, rng.randrange(60)]))
-    shape = rng.choice(["inside", "spanning", "start_on", "end_on", "both_on", "neither", "neither"])
+    shape = rng.choice(["inside", "spanning", "start_on", "end_on", "both_on", "neither", "neither", "at_epoch", "dyadic", "abutting", "abutting"])
+    if shape == "dyadic":
+        # exact Julian-date arithmetic: start on a dyadic day fraction, burn start 2700 s (1/32 day) later, on a step boundary
+        step = rng.choice([100, 300, 300, 600])
+        n = 2700 // step + rng.randrange(2, 5)
+        h, m = rng.choice([(0, 0), (6, 0), (12, 0), (18, 0), (3, 0), (12, 45), (1, 30)])
+        start = start.replace(hour=h, minute=m, second=0)
     total = n * step
     if shape == "inside":
         k = rng.randrange(0, n)
@@ -60,6 +66,15 @@ def gen_case(rng):
         ka = rng.randrange(1, n - 1)
         kb = rng.randrange(ka + 1, n)
         a, b = ka * step, kb * step
+    elif shape == "at_epoch":
+        a = 0
+        b = rng.randrange(1, total)
+    elif shape == "dyadic":
+        a = 2700
+        b = a + rng.randrange(1, total - a)
+    elif shape == "abutting":
+        a = rng.randrange(1, total - 4)
+        b = rng.randrange(a + 2, total)
     else:
         a = rng.randrange(1, total - 2)
         b = rng.randrange(a + 1, total)
@@ -72,7 +87,15 @@ def gen_case(rng):
     kind = rng.choice(["burn_eci", "burn_ntw", "spiral", "plane_change"])
     mag = rng.choice([1e-5, 5e-5, 2e-4])
     vec = [rng.choice([-1, 1]) * mag * rng.uniform(0.3, 1) for _ in range(3)]
-    return {"kind": "burn", "start": start.isoformat(), "step": step, "n": n, "t_on": int(a), "t_off": int(b), "burn": kind, "vec": vec, "mag": rng.choice([-1, 1]) * mag,
+    second = None
+    if shape == "abutting":
+        # a second burn of the same agent that starts exactly when the first one ends (hand-over anywhere in the grid)
+        mid = rng.randrange(int(a) + 1, int(b))
+        second = {"t_on": mid, "t_off": int(b), "vec": [rng.choice([-1, 1]) * mag * rng.uniform(0.3, 1) for _ in range(3)], "mag": rng.choice([-1, 1]) * mag}
+        b = mid
+        if kind in ("spiral", "plane_change"):
+            kind = rng.choice(["burn_eci", "burn_ntw"])
+    return {"kind": "burn", "start": start.isoformat(), "step": step, "n": n, "t_on": int(a), "t_off": int(b), "burn": kind, "vec": vec, "mag": rng.choice([-1, 1]) * mag, "second": second,
             "model": rng.choice(["special_perturbations", "special_perturbations", "special_perturbations", "two_body"]), "shape": shape,
             "orbit": [rng.choice([6900.0, 7300.0, 12000.0, 42164.0]), rng.uniform(0, 120), rng.uniform(0, 360), rng.uniform(0, 360)]}
 
@@ -91,8 +114,13 @@ def build_cfg(case):
     else:
         ev = {"scope": "agent_propagation", "scope_instance_id": TID, "start_time": sk.iso(t1), "end_time": sk.iso(t2), "event_type": "finite_maneuver",
               "maneuver_mag": case["mag"], "maneuver_type": case["burn"], "planned": False}
+    evs = [ev]
+    if case.get("second"):
+        s2 = case["second"]
+        evs.append({"scope": "agent_propagation", "scope_instance_id": TID, "start_time": sk.iso(start + timedelta(seconds=s2["t_on"])),
+                    "end_time": sk.iso(start + timedelta(seconds=s2["t_off"])), "event_type": "finite_burn", "acc_vector": s2["vec"], "thrust_frame": case["burn"][-3:], "planned": False})
     return sk.scenario_cfg(start, start + timedelta(seconds=(case["n"] + 1) * case["step"]), case["step"], [sk.engine_cfg(1, tg, sn)], truth_only=True, model=case["model"],
-                           geopotential={"model": "egm96.txt", "degree": 2, "order": 0}, events=[ev])
+                           geopotential={"model": "egm96.txt", "degree": 2, "order": 0}, events=evs)
 
 
 def _thrust(case, y):
@@ -126,9 +154,21 @@ def reference(case, dyn, x0, t_final):
         d[3:] = d[3:] + _thrust(case, y)
         return d
 
+    def rhs_second(t, y):
+        d = grav(t, y)
+        c2 = {**case, "vec": case["second"]["vec"], "mag": case["second"]["mag"]}
+        d[3:] = d[3:] + _thrust(c2, y)
+        return d
+
     x, t = np.array(x0, dtype=float), 0.0
+    legs = [(0.0, float(case["t_on"]), grav), (float(case["t_on"]), float(case["t_off"]), rhs_on)]
+    last = float(case["t_off"])
+    if case.get("second"):
+        legs.append((float(case["second"]["t_on"]), float(case["second"]["t_off"]), rhs_second))
+        last = float(case["second"]["t_off"])
+    legs.append((last, float(t_final), grav))
     try:
-        for (ta, tb, f) in ((0.0, float(case["t_on"]), grav), (float(case["t_on"]), float(case["t_off"]), rhs_on), (float(case["t_off"]), float(t_final), grav)):
+        for (ta, tb, f) in legs:
             tb = min(tb, float(t_final))
             if tb <= ta:
                 continue
@@ -208,7 +248,7 @@ def eval_case(ctx, case):
         return
     t_final = case["n"] * case["step"]
     ref = reference(case, dyn, x0, t_final)
-    coast = reference({**case, "t_on": t_final + 1, "t_off": t_final + 2}, dyn, x0, t_final)
+    coast = reference({**case, "t_on": t_final + 1, "t_off": t_final + 2, "second": None}, dyn, x0, t_final)
     dr, dv = float(np.linalg.norm(got[:3] - ref[:3])), float(np.linalg.norm(got[3:] - ref[3:]))
     effect = float(np.linalg.norm(ref[3:] - coast[3:]))
     # tolerance = the repository integrator's own error on this arc (measured: its thrust-free propagation
@@ -224,13 +264,17 @@ def eval_case(ctx, case):
     tol_v = 1e-8 + 30.0 * e_v + jitter_v
     if tol_v > 0.2 * effect and effect > 0:
         ctx.count("cases_effect_below_resolution")
-    misaligned_end = case["t_off"] % case["step"] != 0
+    misaligned_end = case["t_off"] % case["step"] != 0 or bool(case.get("second") and case["second"]["t_off"] % case["step"] != 0)
     if misaligned_end:
         ctx.mon("misaligned_end_cases")
     # classify by mechanism (observed facts only)
     ignored = float(np.linalg.norm(got[3:] - coast[3:])) <= tol_v and effect > 10 * tol_v
     if ignored:
         key = f"burn-ignored-{case['model']}"
+    elif case.get("second"):
+        key = "burn-trajectory-abutting-burns"
+    elif case["shape"] in ("at_epoch", "dyadic"):
+        key = "burn-trajectory-start-bit-identical-to-step-start"
     elif misaligned_end:
         key = "burn-overshoot-misaligned-end"
     else:
